@@ -416,7 +416,91 @@ def _call_step(inp):
     return r[1]
 
 
-ORACLES = {'attitudes': o_attitudes, 'step': o_step}
+# ---- streaming: the per-sample public entry points driven sample by sample from one instance ------------------------
+# name -> (class, call, frames, constructor variants).  Every sensor combination the method signature allows; the instance is
+# data-less ('none') or, where the class has two architectures, was built from IMU / MARG data and is then fed the OTHER (or the
+# same) combination through the method.
+_BOTH = ('none', 'IMU', 'MARG')
+STREAMS = {
+    'EKF.update': ('EKF', lambda f, q, g, a, m: f.update(q, g, a), ('NED', 'ENU'), _BOTH),
+    'EKF.update+mag': ('EKF', lambda f, q, g, a, m: f.update(q, g, a, m), ('NED', 'ENU'), _BOTH),
+    'EKF.update+mag-kw': ('EKF', lambda f, q, g, a, m: f.update(q, g, a, mag=m, dt=0.02), ('NED',), _BOTH),
+    'Madgwick.updateIMU': ('Madgwick', lambda f, q, g, a, m: f.updateIMU(q, g, a), (None,), _BOTH),
+    'Madgwick.updateMARG': ('Madgwick', lambda f, q, g, a, m: f.updateMARG(q, g, a, m), (None,), _BOTH),
+    'Mahony.updateIMU': ('Mahony', lambda f, q, g, a, m: f.updateIMU(q, g, a), (None,), _BOTH),
+    'Mahony.updateMARG': ('Mahony', lambda f, q, g, a, m: f.updateMARG(q, g, a, m), (None,), _BOTH),
+    'UKF.update': ('UKF', lambda f, q, g, a, m: f.update(q, g, a), (None,), ('none', 'IMU')),
+    'AQUA.updateIMU': ('AQUA', lambda f, q, g, a, m: f.updateIMU(q, g, a), ('NED', 'ENU'), ('none',)),
+    'AQUA.updateMARG': ('AQUA', lambda f, q, g, a, m: f.updateMARG(q, g, a, m), ('NED', 'ENU'), ('none',)),
+    'Fourati.update': ('Fourati', lambda f, q, g, a, m: f.update(q, g, a, m), (None,), ('none', 'MARG')),
+    'ROLEQ.update': ('ROLEQ', lambda f, q, g, a, m: f.update(q, g, a, m), ('NED', 'ENU'), ('none', 'MARG')),
+    'AngularRate.update': ('AngularRate', lambda f, q, g, a, m: f.update(q, g), (None,), ('none',)),
+    'AngularRate.update-series2': ('AngularRate', lambda f, q, g, a, m: f.update(q, g, method='series', order=2), (None,), ('none',)),
+}
+
+
+def _stream(key, frame, ctor, q, gyr, acc, mag):
+    import ahrs.filters as F
+    cls, call, _, _ = STREAMS[key]
+    kw = {} if frame is None else {'frame': frame}
+    C = getattr(F, cls)
+    if ctor == 'IMU':
+        f = C(gyr=gyr.copy(), acc=acc.copy(), **kw)
+    elif ctor == 'MARG':
+        f = C(gyr=gyr.copy(), acc=acc.copy(), mag=mag.copy(), **kw)
+    else:
+        f = C(**kw)
+    out = []
+    for t in range(len(gyr)):
+        q = call(f, q, gyr[t].copy(), acc[t].copy(), mag[t].copy())
+        out.append(np.array(q))
+        q = np.asarray(q, dtype=float)
+    return out
+
+
+def o_stream(inp):
+    """a per-sample public entry point (update / updateIMU / updateMARG), called sample after sample on one instance with
+    every sensor combination its signature allows, returns a real finite unit quaternion on every call (no exception)"""
+    from vlib.core import call_outcome
+    key, frame, ctor = inp['key'], inp.get('frame'), inp.get('ctor', 'none')
+    q, gyr, acc, mag = (np.array(inp[k], dtype=float) for k in ('q', 'gyr', 'acc', 'mag'))
+    where = f"{key}[{ctor}]" + (f".{frame}" if frame else '')
+    r = call_outcome(_stream, key, frame, ctor, q, gyr, acc, mag)
+    if _nan_rejected(r):
+        return {'tag': f"{where}/{NANFAM}", 'observed': list(r[1:])}
+    if r[0] == 'raise':
+        return {'tag': f"{where}/raises-{r[1]}", 'observed': list(r[1:]), 'expected': 'a unit quaternion per call'}
+    for t, X in enumerate(r[1]):
+        bad = _validate('quaternion', X[None] if np.ndim(X) == 1 else X, 1)
+        if bad is not None:
+            return {'tag': f"{where}/{NANFAM if bad[0] == 'nonfinite' else bad[0]}", 'observed': {'call': t, 'what': bad[1]},
+                    'expected': 'a real finite unit quaternion per call'}
+    return None
+
+
+def stream_cases(rng, n):
+    out = []
+    for key, (cls, call, frames, ctors) in STREAMS.items():
+        for fr in frames:
+            for ctor in ctors:
+                for k in range(n):
+                    g, a, m = rand_hist(rng, NS[k % len(NS)])
+                    out.append({'key': key, 'frame': fr, 'ctor': ctor, 'q': cm.rand_unit_quat(rng).tolist(),
+                                'gyr': g.tolist(), 'acc': a.tolist(), 'mag': m.tolist()})
+    return out
+
+
+def _call_stream(inp):
+    from vlib.core import call_outcome
+    r = call_outcome(o_stream, inp)
+    if r[0] == 'raise':
+        return {'tag': f"{inp['key']}/oracle-raises-{r[1]}", 'observed': list(r[1:])}
+    return r[1]
+
+
+ORACLES = {'attitudes': o_attitudes, 'step': o_step, 'stream': o_stream}
+
+NS = (2, 3, 4, 5, 7)
 
 # ---- histories -----------------------------------------------------------------------------
 DIP = math.radians(64.0)
@@ -497,9 +581,6 @@ def _inp(cfg, region, H):
             'gyr': g.tolist(), 'acc': a.tolist(), 'mag': m.tolist()}
 
 
-NS = (2, 3, 4, 5, 7)
-
-
 def search(ctx, scale):
     cfgs = configs()
     P = poses()
@@ -521,6 +602,8 @@ def search(ctx, scale):
                 inp['form'] = 'list'
             inp['pose'] = pose[1]
             ctx.check('attitudes', inp, _call(inp), nontrivial_key=(cfg, pose[1], lead))
+    for inp in stream_cases(ctx.rng, 3 * scale):
+        ctx.check('stream', inp, _call_stream(inp), nontrivial_key=(inp['key'], inp['frame'], inp['ctor'], tuple(np.round(inp['q'], 6))))
     for inp in step_cases(ctx.rng, 6 * scale):
         ctx.check('step', inp, _call_step(inp), nontrivial_key=(inp['cls'], inp['kind'], tuple(np.round(inp['q'], 6))))
     if len(ctx.samples) < 8:
